@@ -31,7 +31,15 @@ REP_NAMES_DIGIT = ["Eq1", "Fw2", "Gen10", "Hk-1", "Jy_2"]
 RESERVED = {"input", "data", "bin", "conf", "stages", "output"}
 EXES = ["echo", "cat", "ls", "/bin/true", "run.sh"]
 IMAGES = ["img:1", "img:2", "quay.io/org/tool:latest"]
-CONTENTS = ["A", "B", "AB", "A\n", "", "hello world", "0", "1"]
+# "@BIG:x" stands for a file of 70000 'L' followed by x: two such files agree on their first 64 KiB and beyond
+# (kept as a token in the JSON case, expanded by expand_content() when files are written)
+CONTENTS = ["A", "B", "AB", "A\n", "", "hello world", "0", "1", "@BIG:a", "@BIG:b"]
+
+
+def expand_content(content):
+    if isinstance(content, str) and content.startswith("@BIG:"):
+        return "L" * 70000 + content[5:]
+    return content
 LITS = ["hi", "-x", "1", "0", "A", "B", "gen", "out.txt", "--n=3", "a,b", "stage0", "x/y", "ref", "file"]
 PREFIXES = ["", "", "-f=", "k,", "--in="]
 SUFFIXES = ["", "", "", ",z"]
@@ -370,8 +378,9 @@ def render(W, extroot):
     for dname, files in W["ddir"].items():
         for f, content in files.items():
             extra["data/%s/%s" % (dname, f)] = content
-    post = {"input": {f: c for f, c in W["input"].items() if c is not None},
-            "ext": {"%s/%s" % (W["extdir"], f): c for f, c in W["ext"].items() if c is not None}}
+    post = {"input": {f: expand_content(c) for f, c in W["input"].items() if c is not None},
+            "ext": {"%s/%s" % (W["extdir"], f): expand_content(c) for f, c in W["ext"].items() if c is not None}}
+    extra = {k: expand_content(v) for k, v in extra.items()}
     return flowir, extra, post
 
 
@@ -645,7 +654,10 @@ def mutation(draw, W):
         where = draw(st.sampled_from(files))
         if k == "content":
             cur = _get_file(W, where)
-            m.update(where=where, to=draw(st.sampled_from([x for x in CONTENTS + ["Z"] if x != cur])))
+            others = [x for x in CONTENTS + ["Z"] if x != cur]
+            if isinstance(cur, str) and cur.startswith("@BIG:"):
+                others += [x for x in others if x.startswith("@BIG:")] * 6
+            m.update(where=where, to=draw(st.sampled_from(others)))
         else:
             m.update(where=where)
     elif k == "frename":
